@@ -20,6 +20,26 @@ import Mathlib.Data.List.Nodup
 namespace EtVerif
 open Scalar
 
+/-- `List.foldl max θ l` is the maximum of `θ` and the elements of `l` -/
+theorem foldl_max_spec (l : List Nat) : ∀ θ : Nat,
+    θ ≤ l.foldl max θ ∧ (∀ x ∈ l, x ≤ l.foldl max θ) ∧ (l.foldl max θ = θ ∨ l.foldl max θ ∈ l) := by
+  induction l with
+  | nil => intro θ; simp
+  | cons a l ih =>
+    intro θ
+    obtain ⟨h1, h2, h3⟩ := ih (max θ a)
+    rw [List.foldl_cons]
+    refine ⟨by omega, ?_, ?_⟩
+    · intro x hx
+      rcases List.mem_cons.mp hx with rfl | hx
+      · omega
+      · exact h2 x hx
+    · rcases h3 with h3 | h3
+      · rcases Nat.le_total θ a with hle | hle
+        · right; rw [h3, Nat.max_eq_right hle]; exact List.mem_cons_self
+        · left; rw [h3, Nat.max_eq_left hle]
+      · right; exact List.mem_cons_of_mem _ h3
+
 section general
 variable {α : Type}
 
